@@ -12,6 +12,8 @@ use crate::common::*;
 pub enum Op {
     Flow { dc: Option<u32>, credit: Option<u32>, drain: bool, echo: bool },
     Send,
+    /// the non-waiting taker (`TryConsume::try_consume`): a credit if there is one, else nothing changes
+    TrySend,
 }
 
 #[derive(Clone, Debug, PartialEq)]
@@ -29,6 +31,7 @@ impl Op {
         match self {
             Op::Flow { dc, credit, drain, echo } => format!("K flow {} {} {} {}", o(*dc), o(*credit), *drain as u8, *echo as u8),
             Op::Send => "K send".into(),
+            Op::TrySend => "K try".into(),
         }
     }
 }
@@ -51,6 +54,7 @@ impl Case {
             ops.push(match ws.as_slice() {
                 ["K", "flow", a, b, c, d] => Op::Flow { dc: opt(a)?, credit: opt(b)?, drain: *c == "1", echo: *d == "1" },
                 ["K", "send"] => Op::Send,
+                ["K", "try"] => Op::TrySend,
                 _ => return None,
             });
         }
@@ -92,6 +96,10 @@ pub fn run_impl(case: &Case) -> Vec<StepOut> {
                         None => vec![],
                     }
                 }
+                Op::TrySend => match cons.try_consume(1) {
+                    Some(tag) => vec![Emit::Sent(u32::from_be_bytes(tag))],
+                    None => vec![Emit::Blocked],
+                },
                 Op::Send => {
                     let fut = cons.consume(1);
                     tokio::pin!(fut);
@@ -177,7 +185,7 @@ pub fn check_property(case: &Case, outs: &[StepOut]) -> Option<(String, String)>
                     }
                 }
             }
-            Op::Send => {
+            Op::Send | Op::TrySend => {
                 let d = sdist(lim.0, before.dc);
                 match after.emits.as_slice() {
                     [Emit::Sent(tag)] => {
@@ -226,7 +234,7 @@ pub fn gen_case(rng: &mut Rng, max_ops: u64) -> Case {
     let honest = rng.chance(3, 4);
     for _ in 0..n {
         if rng.chance(3, 5) {
-            ops.push(Op::Send);
+            ops.push(if rng.chance(1, 4) { Op::TrySend } else { Op::Send });
             sends += 1;
         } else {
             let dc = if rng.chance(1, 6) {
@@ -395,6 +403,7 @@ pub fn main(opts: &Opts) {
         for op in &case.ops {
             report.count(match op {
                 Op::Send => "op_send",
+                Op::TrySend => "op_try_send",
                 Op::Flow { drain: true, .. } => "op_flow_drain",
                 Op::Flow { dc: None, .. } => "op_flow_unset_delivery_count",
                 Op::Flow { credit: None, .. } => "op_flow_unset_credit",
